@@ -53,7 +53,7 @@ partial def parseArgs (l : List Json) : R Args :=
 end
 
 def parseCfg (j : Json) : R Cfg := do
-  pure ⟨← fBool j "domSize", ← fBool j "evalFn", ← fBool j "timeIdx", ← fBool j "plistKeys",
+  pure ⟨← fBool j "domSize", ← fBool j "evalFn", ← fBool j "evalArity", ← fBool j "timeIdx", ← fBool j "plistKeys",
         ← fBool j "domType", ← fBool j "denseShape", ← fBool j "mergedDomType"⟩
 
 def eqPairs (ks : List (List Tok)) : List (Nat × Nat) :=
@@ -71,6 +71,26 @@ def step (j : Json) : R Json := do
                ("eq", ofList (fun (p : Nat × Nat) => ofNats [p.1, p.2]) (eqPairs ks)),
                ("wf", ofList Json.bool ((ts.zip ks).map (fun (t, k) => wfTree t && wfList k))),
                ("lex", ofList Json.bool (ks.map (fun k => decide (lex (renderL k) = some k))))])
+  | "hist" =>
+    -- a history of calls on one operator object: [["key"],["ts",k],["it",k],["set",repr]]
+    let c ← field j "cfg" >>= parseCfg
+    let pj ← field j "pol"
+    let pol : CachePolicy := ⟨← fBool pj "resetOnShift", ← fBool pj "resetOnSet"⟩
+    let t ← field j "tree" >>= parseTree
+    let hops ← field j "ops" >>= jList (fun h => do
+      let l ← jList pure h
+      match l with
+      | [k] => if (← jStr k) == "key" then pure HOp.key else throw "bad history op"
+      | [k, a] =>
+        match (← jStr k) with
+        | "ts" => pure (HOp.shift true (← jNat a))
+        | "it" => pure (HOp.shift false (← jNat a))
+        | "set" => pure (HOp.set (← jStr a).toList)
+        | _ => throw "bad history op"
+      | _ => throw "bad history op")
+    match Obj.run c pol ⟨t, none⟩ hops with
+    | none => pure (err "raised")
+    | some (_, outs) => pure (obj [("keys", ofList Json.str (outs.map render))])
   | _ => throw s!"unknown op {op}"
 
 def main : IO Unit := runPure step
